@@ -63,6 +63,8 @@ pub trait Sim: Sync {
     fn abort_observed(&self, site: Site, ply: u8);
     /// The stop flag was just read as `false`.
     fn flag_false_seen(&self);
+    /// The calling thread sleeps for `ns` of virtual time.
+    fn sleep_ns(&self, ns: u64);
 }
 
 static SIM: OnceLock<&'static dyn Sim> = OnceLock::new();
@@ -108,9 +110,55 @@ pub mod atomic {
             self.0.store(v, order);
         }
 
+        pub fn swap(&self, v: bool, order: Ordering) -> bool {
+            if let Some(s) = super::sim() {
+                s.yield_point(super::Label::FlagStore(v));
+            }
+            self.0.swap(v, order)
+        }
+
+        pub fn fetch_and(&self, v: bool, order: Ordering) -> bool {
+            if let Some(s) = super::sim() {
+                s.yield_point(super::Label::FlagStore(v));
+            }
+            self.0.fetch_and(v, order)
+        }
+
+        pub fn fetch_or(&self, v: bool, order: Ordering) -> bool {
+            if let Some(s) = super::sim() {
+                s.yield_point(super::Label::FlagStore(v));
+            }
+            self.0.fetch_or(v, order)
+        }
+
+        pub fn compare_exchange(
+            &self,
+            current: bool,
+            new: bool,
+            success: Ordering,
+            failure: Ordering,
+        ) -> Result<bool, bool> {
+            if let Some(s) = super::sim() {
+                s.yield_point(super::Label::FlagStore(new));
+            }
+            self.0.compare_exchange(current, new, success, failure)
+        }
+
         /// Read without a scheduling point (observers only).
         pub fn peek(&self) -> bool {
             self.0.load(Ordering::Relaxed)
+        }
+    }
+
+    impl Default for AtomicBool {
+        fn default() -> Self {
+            Self::new(false)
+        }
+    }
+
+    impl std::fmt::Debug for AtomicBool {
+        fn fmt(&self, f: &mut std::fmt::Formatter<'_>) -> std::fmt::Result {
+            self.0.fmt(f)
         }
     }
 }
@@ -152,6 +200,25 @@ pub mod thread {
         }
     }
 
+    /// A pure scheduling point in the simulator.
+    pub fn yield_now() {
+        match super::sim() {
+            Some(s) => s.yield_point(super::Label::FlagLoad),
+            None => std::thread::yield_now(),
+        }
+    }
+
+    /// Sleeping costs virtual time in the simulator, never real time.
+    pub fn sleep(d: std::time::Duration) {
+        match super::sim() {
+            Some(s) => {
+                s.sleep_ns(u64::try_from(d.as_nanos()).unwrap_or(u64::MAX));
+                s.yield_point(super::Label::FlagLoad);
+            }
+            None => std::thread::sleep(d),
+        }
+    }
+
     pub fn spawn<F>(f: F) -> JoinHandle<()>
     where
         F: FnOnce() + Send + 'static,
@@ -188,6 +255,52 @@ impl Instant {
             (Some(t0), Some(s)) => Duration::from_nanos(s.clock_read_ns().saturating_sub(t0)),
             _ => self.real.elapsed(),
         }
+    }
+
+    pub fn duration_since(&self, earlier: Self) -> Duration {
+        match (self.virt, earlier.virt) {
+            (Some(a), Some(b)) => Duration::from_nanos(a.saturating_sub(b)),
+            _ => self.real.saturating_duration_since(earlier.real),
+        }
+    }
+
+    pub fn saturating_duration_since(&self, earlier: Self) -> Duration {
+        self.duration_since(earlier)
+    }
+}
+
+impl PartialEq for Instant {
+    fn eq(&self, other: &Self) -> bool {
+        match (self.virt, other.virt) {
+            (Some(a), Some(b)) => a == b,
+            _ => self.real == other.real,
+        }
+    }
+}
+
+impl PartialOrd for Instant {
+    fn partial_cmp(&self, other: &Self) -> Option<std::cmp::Ordering> {
+        match (self.virt, other.virt) {
+            (Some(a), Some(b)) => a.partial_cmp(&b),
+            _ => self.real.partial_cmp(&other.real),
+        }
+    }
+}
+
+impl std::ops::Add<Duration> for Instant {
+    type Output = Self;
+    fn add(self, d: Duration) -> Self {
+        Self {
+            real: self.real + d,
+            virt: self.virt.map(|v| v.saturating_add(u64::try_from(d.as_nanos()).unwrap_or(u64::MAX))),
+        }
+    }
+}
+
+impl std::ops::Sub<Instant> for Instant {
+    type Output = Duration;
+    fn sub(self, other: Self) -> Duration {
+        self.duration_since(other)
     }
 }
 
